@@ -301,6 +301,7 @@ def c01_rf18(run):
     rf_flow.rf18b(run)
     rf_flow.rf32t(run)
     run.min_instances('RF32t', 56)
+    rf_flow.rf97(run)
     rf_flow.rf67(run, units=('gen',))
 
 
@@ -447,6 +448,7 @@ def c05_rf10(run):
     run.min_instances('RF65', 2)
     rf_flow.rf32(run)
     rf_templates.rf74(run)
+    rf_flow.rf97(run)
     rf_dispatch.rf7e(run, units=('gen',), expect=1)
     rf_dispatch.rf7f(run)
     run.min_instances('RF7f', 30)
